@@ -97,7 +97,7 @@ def mypad_contract(it, x, pad, mode='constant', value=0):
     raise Raised('ValueError', 'Unkown pad type')
 
 
-def afb1d_contract(it, x, h0, h1, mode='zero', dim=-1):
+def afb1d_contract(it, x, h0, h1, mode='zero', dim=-1, f1_pre=True):
     """out[n, 2c+b, .., i ..] = dwt1(x[n, c] along dim, dec = reverse(h_b), mode)[i]
     (PyWavelets' single-level analysis); reflect mode raises when pad >= size;
     periodization: requires even-extended length >= L (see known finding F1)."""
@@ -122,7 +122,7 @@ def afb1d_contract(it, x, h0, h1, mode='zero', dim=-1):
         ok = simp((I(p) + 1) / 2 < I(N))
         if c.decide(ok) is False:
             raise Raised('RuntimeError', 'Padding size should be less than the corresponding input dimension')
-    if per:
+    if per and f1_pre:
         c.require('afb1d-pre:periodization-length>=L (F1)', I(N) + I(N) % 2 >= I(L))
     Lo = specs.dwt_len(bk, N, L, mode)
     Bn, C = x.shape[0], x.shape[1]
@@ -144,7 +144,7 @@ def afb1d_contract(it, x, h0, h1, mode='zero', dim=-1):
     return fresh_like(shape, elem, x)
 
 
-def sfb1d_contract(it, lo, hi, g0, g1, mode='zero', dim=-1):
+def sfb1d_contract(it, lo, hi, g0, g1, mode='zero', dim=-1, f1_pre=True):
     """y[n, c] = idwt1(lo[n,c], hi[n,c], rec = (g0, g1), mode) along dim"""
     c = ctx()
     if not all(isinstance(t, STensor) for t in (lo, hi, g0, g1)):
@@ -161,7 +161,8 @@ def sfb1d_contract(it, lo, hi, g0, g1, mode='zero', dim=-1):
         raise Raised('ValueError', 'Unkown pad type')
     per = mode in ('per', 'periodization')
     if per:
-        c.require('sfb1d-pre:periodization 2*len>=L-2 (F1)', 2 * I(Nc) >= I(L) - 2)
+        if f1_pre:
+            c.require('sfb1d-pre:periodization 2*len>=L-2 (F1)', 2 * I(Nc) >= I(L) - 2)
         c.require('sfb1d-pre:periodization L>=2', I(L) >= 2)
     else:
         c.require('sfb1d-pre:output non-empty', 2 * I(Nc) - I(L) + 2 >= 1)
@@ -205,3 +206,300 @@ def filt_tensor(name, shape, axis, **meta):
     t = STensor(shape, lambda idx, name=name, axis=axis: GS.atom(name, [idx[axis]]), meta=m)
     t.base.owner = 'arg:' + name
     return t
+
+
+# ---------------------------------------------------------------------------
+# filter preparation
+# ---------------------------------------------------------------------------
+def np1d(name, L_):
+    """array-like filter argument (numpy 1-D array / python list) of symbolic taps"""
+    t = STensor((L_,), lambda idx, name=name: GS.atom(name, [idx[0]]), meta=dict(kind='np', dtype=prims.F64, name=name))
+    t.base.owner = 'arg:' + name
+    return t
+
+
+def _prepped(src, shape, axis, reverse, name=None):
+    """tensor of `shape` whose entry a along `axis` is src[a] (or src[L-1-a])"""
+    L_ = src.shape[0]
+    ss = src.snap()
+
+    def elem(idx):
+        a = idx[axis]
+        return ss([simp(I(L_) - 1 - I(a))]) if reverse else ss([a])
+    return STensor(shape, elem, meta=dict(kind='torch', dtype=prims.DT_DEFAULT, contig=True,
+                                          name=name or src.meta.get('name')))
+
+
+def _flat(v):
+    if isinstance(v, STensor):
+        if v.ndim != 1:
+            raise Unsupported('filter argument of rank %d' % v.ndim)
+        return v
+    raise Unsupported('filter argument %r' % (v,))
+
+
+def prep_filt_afb1d_contract(it, h0, h1, device=None):
+    """analysis filters are time-reversed (conv2d correlates): out[0,0,a] = h[L-1-a];
+    dtype = torch default dtype; fresh storage"""
+    h0, h1 = _flat(h0), _flat(h1)
+    return (_prepped(h0, (1, 1, h0.shape[0]), 2, True), _prepped(h1, (1, 1, h1.shape[0]), 2, True))
+
+
+def prep_filt_sfb1d_contract(it, g0, g1, device=None):
+    g0, g1 = _flat(g0), _flat(g1)
+    return (_prepped(g0, (1, 1, g0.shape[0]), 2, False), _prepped(g1, (1, 1, g1.shape[0]), 2, False))
+
+
+def _prep2d(rev):
+    def contract(it, c0, c1, r0=None, r1=None, device=None):
+        c0, c1 = _flat(c0), _flat(c1)
+        if r0 is None:
+            r0, r1 = c0, c1
+        else:
+            r0, r1 = _flat(r0), _flat(r1)
+        return (_prepped(c0, (1, 1, c0.shape[0], 1), 2, rev), _prepped(c1, (1, 1, c1.shape[0], 1), 2, rev),
+                _prepped(r0, (1, 1, 1, r0.shape[0]), 3, rev), _prepped(r1, (1, 1, 1, r1.shape[0]), 3, rev))
+    return contract
+
+
+prep_filt_afb2d_contract = _prep2d(True)
+prep_filt_sfb2d_contract = _prep2d(False)
+
+INT2MODE = {0: 'zero', 1: 'symmetric', 2: 'periodization', 3: 'constant', 4: 'reflect', 5: 'replicate', 6: 'periodic'}
+MODE2INT = {v: k for k, v in INT2MODE.items()}
+MODE2INT['per'] = 2
+
+
+def mode_to_int_contract(it, mode):
+    if mode not in MODE2INT:
+        raise Raised('ValueError', 'Unkown pad type')
+    return MODE2INT[mode]
+
+
+def int_to_mode_contract(it, mode):
+    if not is_conc(mode) or mode not in INT2MODE:
+        raise Raised('ValueError', 'Unkown pad type')
+    return INT2MODE[mode]
+
+
+# ---------------------------------------------------------------------------
+# one-level Functions
+# ---------------------------------------------------------------------------
+def _unsq(t):
+    """(B,C,N) -> (B,C,1,N) view"""
+    return tget(t, (slice(None), slice(None), None, slice(None)))
+
+
+def AFB1D_apply_contract(it, x, h0, h1, mode):
+    """(x0, x1)[n,c,i] = dwt1(x[n,c,:], dec=reverse(h_b), mode)[i]"""
+    if x.ndim != 3:
+        raise Raised('RuntimeError', 'AFB1D expects (N,C,L)')
+    m = int_to_mode_contract(it, mode)
+    lohi = afb1d_contract(it, _unsq(x), _unsq(h0), _unsq(h1), m, 3)
+    ls = lohi.snap()
+    Bn, C2, _, No = lohi.shape
+    Cc = x.shape[1]
+    x0 = fresh_like((Bn, Cc, No), lambda idx: ls([idx[0], simp(2 * I(idx[1])), 0, idx[2]]), x)
+    x1 = fresh_like((Bn, Cc, No), lambda idx: ls([idx[0], simp(2 * I(idx[1]) + 1), 0, idx[2]]), x)
+    return x0, x1
+
+
+def SFB1D_apply_contract(it, low, high, g0, g1, mode):
+    m = int_to_mode_contract(it, mode)
+    ctx().require('SFB1D-pre:lowpass and highpass have the same dtype',
+                  z3.BoolVal(low.meta.get('dtype') == high.meta.get('dtype')))
+    y = sfb1d_contract(it, _unsq(low), _unsq(high), _unsq(g0), _unsq(g1), m, 3)
+    ys = y.snap()
+    return fresh_like((y.shape[0], y.shape[1], y.shape[3]), lambda idx: ys([idx[0], idx[1], 0, idx[2]]), low)
+
+
+def dwt2_bands(it, x, h0_row, h1_row, h0_col, h1_col, mode):
+    """4C-channel tensor y[n, 4c + 2a + b] = colband_b(rowband_a(x[n,c])): rows
+    (axis -1) are filtered with the *_row filters, columns (axis -2) with *_col"""
+    lohi = afb1d_contract(it, x, h0_row, h1_row, mode, 3)
+    return afb1d_contract(it, lohi, h0_col, h1_col, mode, 2)
+
+
+def AFB2D_apply_contract(it, x, h0_row, h1_row, h0_col, h1_col, mode):
+    """low = LL; highs[:, :, 0..2] = (LH, HL, HH) = pywt's (cH, cV, cD):
+    LH = lowpass along the width (row filters), highpass along the height"""
+    m = int_to_mode_contract(it, mode)
+    y = dwt2_bands(it, x, h0_row, h1_row, h0_col, h1_col, m)
+    ys = y.snap()
+    Bn, C4, Ho, Wo = y.shape
+    Cc = x.shape[1]
+    low = fresh_like((Bn, Cc, Ho, Wo), lambda idx: ys([idx[0], simp(4 * I(idx[1])), idx[2], idx[3]]), x)
+    highs = fresh_like((Bn, Cc, 3, Ho, Wo),
+                       lambda idx: ys([idx[0], simp(4 * I(idx[1]) + 1 + I(idx[2])), idx[3], idx[4]]), x)
+    return low, highs
+
+
+def SFB2D_apply_contract(it, low, highs, g0_row, g1_row, g0_col, g1_col, mode):
+    m = int_to_mode_contract(it, mode)
+    if highs.ndim != 5:
+        raise Raised('RuntimeError', 'SFB2D expects highs of rank 5')
+    ctx().require('SFB2D-pre:3 bands', I(highs.shape[2]) == 3)
+    ctx().require('SFB2D-pre:lowpass and highpass have the same dtype',
+                  z3.BoolVal(low.meta.get('dtype') == highs.meta.get('dtype')))
+    lh, hl, hh = (tget(highs, (slice(None), slice(None), k)) for k in range(3))
+    lo = sfb1d_contract(it, low, lh, g0_col, g1_col, m, 2)
+    hi = sfb1d_contract(it, hl, hh, g0_col, g1_col, m, 2)
+    return sfb1d_contract(it, lo, hi, g0_row, g1_row, m, 3)
+
+
+def afb2d_contract(it, x, filts, mode='zero'):
+    """functional one-level bank: tensor filters only (lists go through prep_filt_afb2d)"""
+    if len(filts) == 2:
+        h0, h1 = filts
+        if not all(isinstance(f, STensor) and f.meta.get('kind') == 'torch' for f in filts):
+            h0c, h1c, h0r, h1r = prep_filt_afb2d_contract(it, h0, h1)
+        else:
+            h0c, h1c, h0r, h1r = h0, h1, t_transpose(h0, 2, 3), t_transpose(h1, 2, 3)
+    elif len(filts) == 4:
+        if not all(isinstance(f, STensor) and f.meta.get('kind') == 'torch' for f in filts):
+            h0c, h1c, h0r, h1r = prep_filt_afb2d_contract(it, *filts)
+        else:
+            h0c, h1c, h0r, h1r = filts
+    else:
+        raise Raised('ValueError', 'Unknown form for input filts')
+    return dwt2_bands(it, x, h0r, h1r, h0c, h1c, mode)
+
+
+def sfb2d_contract(it, ll, lh, hl, hh, filts, mode='zero'):
+    if len(filts) == 2:
+        g0, g1 = filts
+        if not all(isinstance(f, STensor) and f.meta.get('kind') == 'torch' for f in filts):
+            g0c, g1c, g0r, g1r = prep_filt_sfb2d_contract(it, g0, g1)
+        else:
+            g0c, g1c, g0r, g1r = g0, g1, t_transpose(g0, 2, 3), t_transpose(g1, 2, 3)
+    elif len(filts) == 4:
+        if not all(isinstance(f, STensor) and f.meta.get('kind') == 'torch' for f in filts):
+            g0c, g1c, g0r, g1r = prep_filt_sfb2d_contract(it, *filts)
+        else:
+            g0c, g1c, g0r, g1r = filts
+    else:
+        raise Raised('ValueError', 'Unknown form for input filts')
+    lo = sfb1d_contract(it, ll, lh, g0c, g1c, mode, 2)
+    hi = sfb1d_contract(it, hl, hh, g0c, g1c, mode, 2)
+    return sfb1d_contract(it, lo, hi, g0r, g1r, mode, 3)
+
+
+CONTRACTS.update({
+    'dwt.lowlevel:prep_filt_afb1d': prep_filt_afb1d_contract,
+    'dwt.lowlevel:prep_filt_sfb1d': prep_filt_sfb1d_contract,
+    'dwt.lowlevel:prep_filt_afb2d': prep_filt_afb2d_contract,
+    'dwt.lowlevel:prep_filt_sfb2d': prep_filt_sfb2d_contract,
+    'dwt.lowlevel:mode_to_int': mode_to_int_contract,
+    'dwt.lowlevel:int_to_mode': int_to_mode_contract,
+    'dwt.lowlevel:AFB1D.apply': AFB1D_apply_contract,
+    'dwt.lowlevel:SFB1D.apply': SFB1D_apply_contract,
+    'dwt.lowlevel:AFB2D.apply': AFB2D_apply_contract,
+    'dwt.lowlevel:SFB2D.apply': SFB2D_apply_contract,
+    'dwt.lowlevel:afb2d': afb2d_contract,
+    'dwt.lowlevel:sfb2d': sfb2d_contract,
+})
+
+
+# ---------------------------------------------------------------------------
+# property-level specs of one pyramid level (straight from the property
+# statements: PyWavelets dwt/idwt with the wavelet's dec_* / rec_* filters)
+# ---------------------------------------------------------------------------
+def spec_level_1d(A, dec_lo, dec_hi, mode):
+    """(cA, cD) = pywt.dwt(A[n,c,:], wavelet, mode) for a (B,C,N) tensor"""
+    Bn, Cc, N_ = A.shape
+    L_ = dec_lo.shape[0]
+    No = specs.dwt_len(bk, N_, L_, mode)
+    rd = A.snap()
+
+    def band(f):
+        fs = f.snap()
+
+        def elem(idx):
+            n_, c_, i = idx
+            return lift(specs.dwt1(bk, lambda j: rd([n_, c_, j]), N_, lambda u: fs([u]), L_, mode)(i))
+        return fresh_like((Bn, Cc, No), elem, A)
+    return band(dec_lo), band(dec_hi)
+
+
+def spec_level_2d(A, col, row, mode):
+    """pywt.dwt2(A, (wavelet_col, wavelet_row), mode, axes=(-2,-1)):
+    returns (cA, stack(cH, cV, cD)) ; cH = approximation along the width (axis -1)
+    and detail along the height (axis -2)"""
+    Bn, Cc, H_, W_ = A.shape
+    Lc, Lr_ = col[0].shape[0], row[0].shape[0]
+    Ho = specs.dwt_len(bk, H_, Lc, mode)
+    Wo = specs.dwt_len(bk, W_, Lr_, mode)
+    rd = A.snap()
+
+    def band(a_row, b_col):
+        fr = row[a_row].snap()
+        fc = col[b_col].snap()
+
+        def at(n_, c_, i, j):
+            def rowfilt(r):      # filtered along the width at row r, output column j
+                return lift(specs.dwt1(bk, lambda q: rd([n_, c_, r, q]), W_, lambda u: fr([u]), Lr_, mode)(j))
+            return lift(specs.dwt1(bk, rowfilt, H_, lambda u: fc([u]), Lc, mode)(i))
+        return at
+    ll = band(0, 0)
+    hs = [band(0, 1), band(1, 0), band(1, 1)]     # cH, cV, cD
+    low = fresh_like((Bn, Cc, Ho, Wo), lambda idx: ll(*idx), A)
+
+    def helem(idx):
+        n_, c_, k, i, j = idx
+        out = ZERO
+        for kk in range(3):
+            g = simp(I(k) == kk)
+            if g is False:
+                continue
+            out = out + hs[kk](n_, c_, i, j).guard(g)
+        return out
+    highs = fresh_like((Bn, Cc, 3, Ho, Wo), helem, A)
+    return low, highs
+
+
+def spec_inv_level_1d(R, D, rec_lo, rec_hi, mode):
+    """pywt.idwt(cA, cD, wavelet, mode) along the last axis of (B,C,N) tensors"""
+    Bn, Cc, Nc = R.shape
+    L_ = rec_lo.shape[0]
+    No = specs.idwt_len(bk, Nc, L_, mode)
+    rl, rh = R.snap(), D.snap()
+    f0, f1 = rec_lo.snap(), rec_hi.snap()
+
+    def elem(idx):
+        n_, c_, i = idx
+        return lift(specs.idwt1(bk, lambda k: rl([n_, c_, k]), lambda k: rh([n_, c_, k]), Nc,
+                                lambda v: f0([v]), lambda v: f1([v]), L_, mode)(i))
+    return fresh_like((Bn, Cc, No), elem, R)
+
+
+def spec_inv_level_2d(LL, HS, col, row, mode):
+    """pywt.idwt2((cA, (cH, cV, cD)), (wavelet_col, wavelet_row), mode)"""
+    Bn, Cc, Hc, Wc = LL.shape
+    Lc, Lr_ = col[0].shape[0], row[0].shape[0]
+    Ho = specs.idwt_len(bk, Hc, Lc, mode)
+    Wo = specs.idwt_len(bk, Wc, Lr_, mode)
+    ll, hs = LL.snap(), HS.snap()
+    c0, c1 = col[0].snap(), col[1].snap()
+    r0, r1 = row[0].snap(), row[1].snap()
+
+    def elem(idx):
+        n_, c_, i, j = idx
+
+        def colsyn(lo_at, hi_at):
+            # synthesis along the height at output row i, coefficient column q
+            return lambda q: lift(specs.idwt1(bk, lambda k: lo_at(k, q), lambda k: hi_at(k, q), Hc,
+                                              lambda v: c0([v]), lambda v: c1([v]), Lc, mode)(i))
+        lo = colsyn(lambda k, q: ll([n_, c_, k, q]), lambda k, q: hs([n_, c_, 0, k, q]))      # cA , cH
+        hi = colsyn(lambda k, q: hs([n_, c_, 1, k, q]), lambda k, q: hs([n_, c_, 2, k, q]))   # cV , cD
+        return lift(specs.idwt1(bk, lo, hi, Wc, lambda v: r0([v]), lambda v: r1([v]), Lr_, mode)(j))
+    return fresh_like((Bn, Cc, Ho, Wo), elem, LL)
+
+
+def wavelet_obj(prefix='', Lc=None, with_rec=True):
+    """pywt.Wavelet stand-in with symbolic dec_lo/dec_hi/rec_lo/rec_hi of length Lc"""
+    from .interp import SObj
+    w = SObj(None)
+    w.a['__wavelet__'] = True
+    for nm in ('dec_lo', 'dec_hi', 'rec_lo', 'rec_hi'):
+        w.a[nm] = np1d(prefix + nm, Lc)
+    return w
